@@ -100,4 +100,93 @@ Proof.
     (split; [unfold VamInv; apply VamInvU_mach_same; [exact A|split; cbn; [apply mems_same_refl|lia]]|exact B]).
 Qed.
 
+(* the Allocation objects an API call may write *)
+Definition op_slots (o : op) : list Z :=
+  match o with
+  | OAlloc slot _ _ _ _ _ _ _ _ _ => [slot]
+  | OAllocN slot n _ _ _ _ _ _ _ _ _ => slot_range slot (Z.to_nat n)
+  | OFree slot => [slot]
+  | OFreeN slot n => slot_range slot (Z.to_nat n)
+  | OMap slot | OUnmap slot | ORw slot => [slot]
+  | OFlush _ slot _ _ => [slot]
+  | OCreateBuf slot _ _ _ _ _ _ _ _ _ _ => [slot]
+  | OCreateImg slot _ _ _ _ _ _ _ _ _ _ => [slot]
+  | ODestroyRes slot _ _ => [slot]
+  | OAllocFor slot _ _ _ _ _ _ _ _ => [slot]
+  | OBind slot _ _ _ => [slot]
+  | _ => []
+  end.
+
+Definition exec_frame_post (v v' : vam) (o : op) (r : out unit) : Prop :=
+  match r with PANIC | STUCK => True | _ => tab_frame v v' (op_slots o) end.
+
+(* every other Allocation object is untouched *)
+Lemma exec_frame v o : VamInv c v -> op_ok v o -> let '(v', r) := exec c v o in exec_frame_post v v' o r.
+Proof.
+  intros HI Hok. unfold VamInv in *. destruct o; cbn [exec op_ok op_slots] in *.
+  - pose proof (allocate_memory_inv c Hc v [] slot size align typeBits usage flags req pref ctb pool HI Hok) as P.
+    destruct (allocate_memory c v slot size align typeBits usage flags req pref ctb pool) as (v' & r).
+    destruct r as [[]|code| |]; cbn; auto; destruct P as (A & B & _); exact B.
+  - destruct Hok as (H0 & Hn).
+    pose proof (allocate_memory_slice_inv c Hc v [] slot n size align typeBits usage flags req pref ctb pool HI H0 Hn) as P.
+    destruct (allocate_memory_slice c v slot n size align typeBits usage flags req pref ctb pool) as (v' & r). cbn zeta in P.
+    destruct r as [[]|code| |]; cbn; auto; destruct P as (A & B & _); exact B.
+  - pose proof (allocation_free_inv c v slot HI) as P. destruct (allocation_free c v slot) as (v' & r).
+    destruct r as [[]|code| |]; cbn in *; auto; destruct P as (A & B); exact B.
+  - unfold free_allocation_slice. destruct (slot_range_nodup (Z.to_nat n) slot) as (Hnd & _).
+    assert (Hlive : live_slots v [] (slot_range slot (Z.to_nat n))).
+    { intros s Hs. split; [intros []|]. exists (get_alloc v s). apply get_alloc_allocated. auto. }
+    pose proof (multi_free_inv c _ v [] HI Hnd Hlive) as P. destruct (multi_free c v _) as (v' & r).
+    destruct r as [[]|code| |]; cbn; auto; destruct P as (A & B & _); exact B.
+  - pose proof (allocation_map_inv c v slot HI) as P. destruct (allocation_map c v slot) as (v' & r).
+    destruct r as [[]|code| |]; cbn in *; auto; destruct P as (A & B & _); exact B.
+  - pose proof (allocation_unmap_inv c v slot HI) as P. destruct (allocation_unmap v slot) as (v' & r).
+    destruct r as [[]|code| |]; cbn in *; auto; destruct P as (A & B & _); exact B.
+  - pose proof (allocation_flush_inv c v inval slot off size HI) as P. destruct (allocation_flush c v inval slot off size) as (v' & r).
+    destruct r as [[]|code| |]; cbn in *; auto; destruct P as (A & B & _); exact B.
+  - pose proof (harness_rw_inv c v slot HI) as P. destruct (harness_rw c v slot) as (v' & r).
+    destruct r as [[]|code| |]; cbn in *; auto; destruct P as (A & B & _); exact B.
+  - pose proof (create_pool_inv c Hc v ty flags blockSize minB maxB minAlign HI) as P.
+    destruct (create_pool c v ty flags blockSize minB maxB minAlign) as (v' & r).
+    destruct r as [[]|code| |]; cbn in *; auto; destruct P as (A & B); exact B.
+  - pose proof (rmpool_inv c v uid HI) as P. destruct (pool_destroy c v uid) as (v' & r).
+    destruct r as [[]|code| |]; cbn in *; auto; destruct P as (A & B); exact B.
+  - pose proof (build_stats_string_inv c v HI) as P. destruct (build_stats_string c v) as (v' & r).
+    destruct r as [[]|code| |]; cbn in *; auto; destruct P as (A & B); exact B.
+  - pose proof (allocator_destroy_inv c v HI) as P. destruct (allocator_destroy c v) as (v' & r).
+    destruct r as [[]|code| |]; cbn in *; auto; destruct P as (A & B); exact B.
+  - pose proof (create_buffer_inv c Hc v slot size devreq bufUsage minAlign usage flags req pref ctb pool HI Hok) as P.
+    destruct (create_buffer c v slot size devreq bufUsage minAlign usage flags req pref ctb pool) as (v' & r).
+    destruct r as [[]|code| |]; cbn in *; auto; destruct P as (A & B); exact B.
+  - pose proof (create_image_inv c Hc v slot tiling width devreq imgUsage usage flags req pref ctb pool HI Hok) as P.
+    destruct (create_image c v slot tiling width devreq imgUsage usage flags req pref ctb pool) as (v' & r).
+    destruct r as [[]|code| |]; cbn in *; auto; destruct P as (A & B); exact B.
+  - pose proof (destroy_with_resource_inv c v slot image res HI) as P. destruct (destroy_with_resource c v slot image res) as (v' & r).
+    destruct r as [[]|code| |]; cbn in *; auto; destruct P as (A & B); exact B.
+  - pose proof (allocate_for_resource_inv c Hc v slot image res usage flags req pref ctb pool HI Hok) as P.
+    destruct (allocate_for_resource c v slot image res usage flags req pref ctb pool) as (v' & r).
+    destruct r as [[]|code| |]; cbn in *; auto; destruct P as (A & B); exact B.
+  - pose proof (bind_memory_inv c v slot image res off HI) as P. destruct (bind_memory v slot image res off) as (v' & r).
+    destruct r as [[]|code| |]; cbn in *; auto; destruct P as (A & B); exact B.
+  - unfold raw_create. pose proof (dev_create_res_same (v_m v) image kind devreq) as H.
+    destruct (dev_create_res (v_m v) image kind devreq) as ((m1 & code) & id). cbn [fst] in H.
+    destruct (code =? 0); apply tab_frame_set_m.
+  - unfold raw_destroy. cbn. apply tab_frame_set_m.
+Qed.
+
+Theorem step_frame v o f :
+  VamInv c v -> op_ok v o ->
+  let '(v', r, calls) := step c v o f in
+  r <> RPanic -> r <> RStuck -> tab_frame v v' (op_slots o).
+Proof.
+  intros HI Hok. unfold step.
+  set (v0 := set_m v (clear_calls (set_fault (v_m v) f 0))).
+  assert (I0 : VamInv c v0).
+  { unfold v0, VamInv. apply VamInvU_mach_same; [exact HI|]. split; cbn; [apply mems_same_refl|lia]. }
+  assert (Hok0 : op_ok v0 o) by (destruct o; exact Hok).
+  pose proof (exec_frame v0 o I0 Hok0) as E. destruct (exec c v0 o) as (v1 & r).
+  intros Hp Hs. destruct r as [[]|code| |]; cbn in Hp, Hs; try congruence; cbn in E;
+    (eapply tab_frame_trans_same; [apply tab_frame_set_m|]; eapply tab_frame_trans_same; [exact E|apply tab_frame_set_m]).
+Qed.
+
 End WithCfg.
